@@ -15,7 +15,7 @@
     parented by the unscaled category") is [C15_map_closed_form]. *)
 From Coq Require Import List NArith Bool String.
 From RG Require Import Base.Str Base.Dec Model.Url Model.Href Model.Fs Model.Site Spec.SiteSpec
-  Proofs.SiteHeap Proofs.SiteBuild.
+  Proofs.SiteHeap Proofs.SiteBuild Proofs.SiteErrors Proofs.SitePages.
 Import ListNotations.
 Open Scope string_scope.
 Open Scope list_scope.
@@ -46,4 +46,135 @@ Proof.
   - cbn [uniq_names map sname]. repeat split; repeat constructor; cbv; intuition discriminate.
   - destruct (pure_root demo_env _ demo_root 2) as [hm|e] eqn:Hp; [|vm_compute in Hp; discriminate].
     exists hm. split; [reflexivity|]. vm_compute in Hp. inversion Hp. reflexivity.
+Qed.
+
+(** ** Exactly the right pages
+
+    [site_page_paths E M t] (Spec/SiteSpec.v) is the set the property describes: the home page,
+    the style sheet, for every directory one category page per count 1..M and one under
+    /categories, for every recipe that states its servings one page per count 1..M in its
+    directory's place, for every other recipe one page under /categories.  The files written
+    are exactly these and the asset copies - nothing missing, nothing extra ([t] is the source
+    tree as [enumerate_recipe_directory] sees it). *)
+Theorem C15_page_set : forall E fs input M files root t,
+  generate_static_site E fs input M = Ok files ->
+  realpath fs input = ROk root -> view_root fs root = Some t -> uniq_names t -> 1 <= M ->
+  forall f, In f (map fst files) <->
+    In f (site_page_paths E M t) \/ exists src data, In (f, CCopy src data) files.
+Proof. exact site_files_spec. Qed.
+Print Assumptions C15_page_set.
+
+Example C15_page_set_ex :
+  exists files t, demo_site 2 = Ok files /\ view_root demo_fs demo_root = Some t /\ uniq_names t /\
+    site_page_paths demo_env 2 t =
+      [s "/index.html"; s "/css/style.css";
+       s "/serves1/index.html"; s "/serves1/sub/index.html"; s "/serves2/index.html"; s "/serves2/sub/index.html";
+       s "/categories/index.html"; s "/categories/sub/index.html";
+       s "/serves1/a.html"; s "/serves2/a.html"; s "/categories/sub/b.html"].
+Proof.
+  destruct (demo_site 2) as [files|e] eqn:Hs; [|vm_compute in Hs; discriminate].
+  destruct (view_root demo_fs demo_root) as [t|] eqn:Hv; [|vm_compute in Hv; discriminate].
+  exists files, t. split; [reflexivity|]. split; [reflexivity|].
+  vm_compute in Hv. inversion Hv; subst t. clear Hv. split.
+  - cbn [uniq_names map sname]. repeat split; repeat constructor; cbv; intuition discriminate.
+  - vm_compute. reflexivity.
+Qed.
+
+(** Within one directory and one top, two recipes get the same address only if their names
+    have the same stem - so under [distinct_stems] every (recipe, count) has a page of its own. *)
+Theorem C15_pages_distinct_in_directory : forall top rel name1 name2,
+  rec_page_path top rel name1 = rec_page_path top rel name2 -> stem name1 = stem name2.
+Proof.
+  intros top rel name1 name2 H. unfold rec_page_path in H.
+  apply app_inv_head in H. apply app_inv_head in H. apply app_inv_tail in H. exact H.
+Qed.
+Print Assumptions C15_pages_distinct_in_directory.
+
+(** Without [distinct_stems] the claim "one page per recipe" is false (known finding F12):
+    a.md and a.MD of one directory both go to .../a.html. *)
+Theorem C15_one_page_per_recipe_refuted : exists name1 name2 : str,
+  name1 <> name2 /\ is_md_name name1 = true /\ is_md_name name2 = true /\
+  forall top rel, rec_page_path top rel name1 = rec_page_path top rel name2.
+Proof.
+  exists (s "a.md"), (s "a.MD"). split; [vm_compute; discriminate|]. split; [reflexivity|]. split; [reflexivity|].
+  intros. reflexivity.
+Qed.
+Print Assumptions C15_one_page_per_recipe_refuted.
+
+(** ** Each page scaled to its count
+
+    For every recipe of the tree and every count n in 1..M: a page is written at the
+    recipe's address under /serves<n>, rendered at n / native ([mk_factor] = Fraction in lowest
+    terms; [po_scaled] = the rg-scaled-value texts of [render(n / native)]), and its serving menu
+    lists 1..M.  A recipe without serving count gets its single page under /categories at scale 1. *)
+Theorem C15_page_scale : forall E fs input M files root t,
+  generate_static_site E fs input M = Ok files ->
+  realpath fs input = ROk root -> view_root fs root = Some t -> uniq_names t -> 1 <= M ->
+  forall x, In x (tree_recipes t) ->
+  exists doc title, compile_recipe E (snd x) true false = Ok doc /\ d_title doc = Some title /\
+  forall n, 1 <= n <= M ->
+    match d_servings doc with
+    | Some nv =>
+        exists po, In (rec_page_path (serves_name n) (fst (fst x)) (snd (fst x)), CPageOut po) files /\
+          po_factor po = Some (mk_factor n nv) /\ po_scaled po = d_scaled doc (mk_factor n nv) /\
+          (has_menu (d_items doc) = true -> map fst (po_menu po) = map dec_N (N_seq 1 (N.to_nat M)))
+    | None =>
+        exists po, In (rec_page_path (s "categories") (fst (fst x)) (snd (fst x)), CPageOut po) files /\
+          po_factor po = Some factor_one /\ po_scaled po = d_scaled doc factor_one
+    end.
+Proof. exact site_recipe_pages. Qed.
+Print Assumptions C15_page_scale.
+
+(** the page at the stated count is unscaled *)
+Theorem C15_native_page_unscaled : forall nv, nv <> 0 -> mk_factor nv nv = factor_one.
+Proof.
+  intros nv H. unfold mk_factor, factor_one. rewrite N.gcd_diag. rewrite N.div_same by exact H. reflexivity.
+Qed.
+Print Assumptions C15_native_page_unscaled.
+
+Example C15_page_scale_ex :
+  mk_factor 1 2 = (1, 2) /\ mk_factor 2 2 = (1, 1) /\ mk_factor 3 2 = (3, 2) /\ mk_factor 6 4 = (3, 2).
+Proof. vm_compute. repeat split. Qed.
+
+(** category lists are in (title, name) order: [cp_subs] / [cp_recipes] are the result of
+    [sort_by] (C17_sorted_is_sorted), as [pure_dir] shows. *)
+
+(** ** A recipe stating more servings than M is reported as an error
+
+    For a tree without other defects ([tree_wf]: every directory enumerates, every recipe
+    compiles, has a title and does not state 0 servings) and M >= 1, construction fails with
+    MaxServingsLowerThanLargestRecipeError exactly when some recipe states more than M
+    servings, and succeeds exactly when none does. *)
+Theorem C15_error_iff : forall E t root M, uniq_names t -> tree_wf E t root -> 1 <= M ->
+  (from_root_directory E t root M = Err EMaxServings <-> exists nv, In nv (tree_natives E t root) /\ M < nv) /\
+  ((exists hm h, from_root_directory E t root M = Ok (hm, h)) <-> forall nv, In nv (tree_natives E t root) -> nv <= M).
+Proof. exact max_servings_error_iff. Qed.
+Print Assumptions C15_error_iff.
+
+Example C15_error_iff_ex :
+  exists t, view_root demo_fs demo_root = Some t /\
+    tree_natives demo_env t demo_root = [2] /\
+    (exists e, from_root_directory demo_env t demo_root 1 = Err e /\ e = EMaxServings) /\
+    (exists hm h, from_root_directory demo_env t demo_root 2 = Ok (hm, h)).
+Proof.
+  destruct (view_root demo_fs demo_root) as [t|] eqn:Hv; [|vm_compute in Hv; discriminate].
+  exists t. split; [reflexivity|]. vm_compute in Hv. inversion Hv; subst t. clear Hv.
+  split; [vm_compute; reflexivity|]. split.
+  - exists EMaxServings. split; [vm_compute; reflexivity | reflexivity].
+  - destruct (from_root_directory demo_env _ demo_root 2) as [[hm h]|e] eqn:Hb; [eauto | vm_compute in Hb; discriminate].
+Qed.
+
+(** the hypotheses of [C15_error_iff] hold of the demonstration tree *)
+Example C15_error_iff_hyp_ex :
+  exists t, view_root demo_fs demo_root = Some t /\ uniq_names t /\ tree_wf demo_env t demo_root.
+Proof.
+  destruct (view_root demo_fs demo_root) as [t|] eqn:Hv; [|vm_compute in Hv; discriminate].
+  exists t. split; [reflexivity|]. vm_compute in Hv. inversion Hv; subst t. clear Hv. split.
+  - cbn [uniq_names map sname]. repeat split; repeat constructor; cbv; intuition discriminate.
+  - cbn [tree_wf]. eexists. split; [vm_compute; reflexivity|]. split.
+    + intros nd [Hnd|[]]. subst nd. eexists. eexists. split; [vm_compute; reflexivity|]. split; [reflexivity|].
+      vm_compute. discriminate.
+    + split; [|exact I]. cbn [tree_wf]. eexists. split; [vm_compute; reflexivity|]. split; [|exact I].
+      intros nd [Hnd|[]]. subst nd. eexists. eexists. split; [vm_compute; reflexivity|]. split; [reflexivity|].
+      vm_compute. discriminate.
 Qed.
